@@ -393,7 +393,8 @@ def e_notify_unwrap(ctx, s):
     for b in lib.bodies.values():
         for bb, t in b.calls():
             if C.callee_name(t) == "std::collections::HashMap::<K, V, S, A>::remove" and \
-                    has_field(C.trace(b, t["args"][0]), "out_edge_counts") and b.name != ROLE["notify_finish"]:
+                    has_field(C.trace(b, t["args"][0], through_fields=True), "out_edge_counts") and \
+                    b.name != ROLE["notify_finish"] and b.root != ROLE["notify_finish"]:
                 return None
     return "add_dependency creates the counter entry before it records any in-edge; counters are removed only by notify_finish on the last edge"
 
@@ -494,6 +495,20 @@ def e_line_ending_buf(ctx, s):
     return None
 
 
+def e_line_ending_slice(ctx, s):
+    """`&buf[..len]`: buf holds exactly the len bytes read_until appended (same reasoning as e_line_ending_buf)"""
+    b = s.b
+    kind, parts = range_parts(b, s.t["args"][1])
+    p_len = b.param_index_by_name("len")
+    if kind == "RangeTo" and any(l.kind == "param" and l.data == p_len for l in C.trace(b, parts["end"])):
+        cs = C.all_call_sites(ctx.lib, lambda ns, t: ROLE["get_line_ending_from_buf"] in ns)
+        if len(cs) == 1:
+            names = {C.callee_name(l.data) for l in C.trace(cs[0][0], cs[0][2]["args"][1], through_decorators=True) if l.kind == "call"}
+            if names & {"std::result::Result::<T, E>::and_then", "std::io::BufRead::read_until"}:
+                return "buf[..len]: len is what read_until appended to the initially empty buf"
+    return None
+
+
 def e_repeat(ctx, s):
     lv = C.trace(s.b, s.t["args"][1])
     if any(l.kind == "call" and C.callee_name(l.data) in LEN_FNS for l in lv):
@@ -574,10 +589,12 @@ REVIEWED = [
     (r"TagState::inject_tags$", r"^call:" + re.escape(STR_INDEX), e_inject_slices),
     (r"TagState::inject_tags$", r"^call:std::panicking::panic", e_assert_no_newline),
     (r"(::|<)Directive as std::fmt::Display>::fmt$", r"^call:" + re.escape(VEC_INDEX), e_args0),
-    (r"DepManager::notify_finish$", r"^call:std::option::Option::<T>::unwrap$", e_notify_unwrap),
+    (r"(::|<)Directive as std::fmt::Display>::fmt$", r"^assert:BoundsCheck", e_args0),
+    (r"DepManager::\w+(::\{closure#\d+\})*$", r"^call:std::option::Option::<T>::(unwrap|expect)$", e_notify_unwrap),
     (r"execute_in_collect_deps_mode$", r"^call:std::panicking::panic", e_unreachable_collect),
     (r"::\{closure#\d+\}$", r"^call:std::result::Result::<T, E>::expect$", e_send_expect),
     (r"get_line_ending_from_buf$", r"^assert:BoundsCheck", e_line_ending_buf),
+    (r"get_line_ending_from_buf$", r"^call:std::slice::index::<impl std::ops::Index<I> for \[T\]>::index$", e_line_ending_slice),
     (r".*", r"^call:std::str::<impl str>::repeat$", e_repeat),
     (r"Txtpp::run_internal$", r"^assert:Overflow\(Add\)", e_file_count),
     (r"^<txtpp::(Cli|Command|Flags|BuildFlags) as clap::", r"^call:std::option::Option::<T>::unwrap$", e_clap),
@@ -601,6 +618,10 @@ def discharge(ctx, s):
         r = d_str_index(ctx, s)
         if r:
             return "generic: " + r
+    if s.kind == "call" and s.what == "std::str::<impl str>::split_at":
+        s_id = ident(s.b, s.t["args"][0])
+        if from_find_on(s.b, s.t["args"][1], s_id):
+            return "generic: split_at index derives from find()/len() on the same string"
     if s.kind == "call" and s.what == VEC_INDEX:
         # v[..len(v)-1] style ranges: RangeTo{end} with end derived from len of the same vec
         kind, parts = range_parts(s.b, s.t["args"][1])
